@@ -19,6 +19,9 @@ import CpModel.Gen.C19Tables
   generated from the running CPython), `int(str)`, ISO-8859-1 both ways, `dict` last-wins / `.get`,
   `urllib.request.parse_http_list` and `parse_keqv_list` (source hash pinned by the harness).
 
+  Both challenges write the realm and the charset name as quoted-strings (`escQ`: `\` and `"` as quoted-pairs; fix
+  for finding F26), while the nonce and H(A1) are computed from the realm itself.
+
   The model mirrors the code as repaired in /repo (fix commits 3d94f29, 23fae8d, a02f901): `IndexError` of
   `parse_keqv_list` is answered with 400, an empty `qop=""` is an unsupported qop (400), and `algorithm=MD5-sess`
   is recognised (the original code upper-cased the value and then compared it with the mixed-case spelling, so
@@ -169,9 +172,15 @@ def truthy : Option Str → Bool
 
 /-! ### challenges -/
 
+/-- `_quoted_string_content(value)`: what stands between the quotes of a quoted-string — `\` and `"` written as
+    quoted-pairs (`value.replace('\\', '\\\\').replace('"', '\\"')`, one pass over the characters) -/
+def escQ : Str → Str
+  | [] => []
+  | c :: cs => if c = '"' ∨ c = '\\' then '\\' :: c :: escQ cs else c :: escQ cs
+
 def charsetDecl (acceptCharset : Str) : Str :=
   let cs := pyUpper acceptCharset
-  if cs ≠ fallbackCharset then cs! ", charset=\"" ++ cs ++ ['"'] else []
+  if cs ≠ fallbackCharset then cs! ", charset=\"" ++ escQ cs ++ ['"'] else []
 
 /-! ## Basic -/
 
@@ -193,7 +202,7 @@ def tryDecode (P : Prims) (b : Bytes) : Str :=
   | none => latin1Decode b
 
 def basicChallenge (cfg : BasicCfg) : Str :=
-  cs! "Basic realm=\"" ++ cfg.realm ++ ['"'] ++ charsetDecl cfg.acceptCharset
+  cs! "Basic realm=\"" ++ escQ cfg.realm ++ ['"'] ++ charsetDecl cfg.acceptCharset
 
 /-- `basic_auth(realm, checkpassword_dict(store), accept_charset=…)` on `request.headers.get('authorization')` -/
 def basicAuth (P : Prims) (cfg : BasicCfg) (hdr : Option Str) : Outcome :=
@@ -404,7 +413,7 @@ def getHa1 (P : Prims) (cfg : DigestCfg) (username : Str) : Option Str :=
 
 /-- `www_authenticate(realm, key, stale=…, accept_charset=…)` at `int(time.time()) = now` -/
 def digestChallenge (P : Prims) (cfg : DigestCfg) (now : Int) (stale : Bool) : Str :=
-  cs! "Digest realm=\"" ++ cfg.realm ++ cs! "\", nonce=\"" ++ synthesizeNonce P cfg.realm cfg.key (showInt now)
+  cs! "Digest realm=\"" ++ escQ cfg.realm ++ cs! "\", nonce=\"" ++ synthesizeNonce P cfg.realm cfg.key (showInt now)
     ++ cs! "\", algorithm=\"" ++ challengeAlgorithm ++ cs! "\", qop=\"" ++ challengeQop ++ ['"']
     ++ (if stale then cs! ", stale=\"true\"" else []) ++ charsetDecl cfg.acceptCharset
 
@@ -413,7 +422,7 @@ def digestChallenge (P : Prims) (cfg : DigestCfg) (now : Int) (stale : Bool) : S
 def wwwAuthenticate (P : Prims) (cfg : DigestCfg) (algorithm qop : Str) (now : Int) (stale : Bool) : Except Exc Str :=
   if ¬ validQops.contains qop then .error .valueError
   else if ¬ validAlgorithms.contains algorithm then .error .valueError
-  else .ok (cs! "Digest realm=\"" ++ cfg.realm ++ cs! "\", nonce=\"" ++ synthesizeNonce P cfg.realm cfg.key (showInt now)
+  else .ok (cs! "Digest realm=\"" ++ escQ cfg.realm ++ cs! "\", nonce=\"" ++ synthesizeNonce P cfg.realm cfg.key (showInt now)
     ++ cs! "\", algorithm=\"" ++ algorithm ++ cs! "\", qop=\"" ++ qop ++ ['"']
     ++ (if stale then cs! ", stale=\"true\"" else []) ++ charsetDecl cfg.acceptCharset)
 
